@@ -11,6 +11,8 @@
      cval             = VNull | VBool | VInt | VDec | VStr | VList | VMap    configuration values
      parse_any        : bytes -> res cval           strconv2.ParseAny
      format_any       : cval -> res bytes           strconv2.FormatAny
+     format_cfg       : bool -> cval -> res bytes   what the ${} callback splices: FormatAny (false), or with the
+                                                    repair D-C17g (true) FormatFloat(f,'f',-1,64) for a float64
      json_marshal     : cval -> bytes               encoding/json.Marshal on any-trees
      text_in_fragment : bytes -> bool               inputs on which parse_any is claimed faithful
      val_in_fragment  : cval -> bool                values on which format_any is claimed faithful
@@ -549,6 +551,23 @@ Definition format_any (v : cval) : res bytes :=
   | VInt z => Ok (digits_of_Z z)
   | VDec m e => Ok (fmt_float_v m e)
   | VList _ | VMap _ => Ok (json_marshal v)      (* Marshal of any-trees of these kinds cannot fail *)
+  end.
+
+(* strconv.FormatFloat(f, 'f', -1, 64): the shortest digits, never an exponent *)
+Definition fmt_float_f (m e : Z) : bytes :=
+  if (m =? 0)%Z then [b_zero] else
+  let ds := digits_of_N (Z.to_N (Z.abs m)) in
+  (if (m <? 0)%Z then [b_minus] else []) ++ fmt_f ds (Z.of_nat (length ds) + e)%Z.
+
+(* FormatAny as the ${} callback of container/processors/config_quote_aware_post_processors.go applies it
+   (shared by C16, C17, C18).  [fx] = repair D-C17g (fixes/D-C17g.diff): a float64 is spliced in plain
+   digits, strconv.FormatFloat(f, 'f', -1, 64), instead of %v's exponent form (1e+06, which ParseAny reads
+   back as a string); [fx = false] is the unrepaired callback, plain FormatAny.  Every other kind of value
+   goes through FormatAny in both variants. *)
+Definition format_cfg (fx : bool) (v : cval) : res bytes :=
+  match v with
+  | VDec m e => if fx then Ok (fmt_float_f m e) else format_any v
+  | _ => format_any v
   end.
 
 (* ---- comparison of values (maps as sets of bindings) -------------------------------- *)
